@@ -14,6 +14,8 @@ Clause ↔ sentence of the statement:
 * `C16_hex_*`      "hexadecimal payload decodes to the file's exact bytes"
 * `C16_blip_*`     "tagged with the picture type of its format"
 * `C16_png_*`, `C16_jpeg_*`, `C16_pixels_*`   "pixel dimensions read from the image"
+  (`C16_pixels_read`, `C16_fallback_only_when_unreadable`, `C16_zero_*_stated`: a field read as 0 is a read value; the
+  96-dpi estimate is written only when the parser returns nothing)
 * `C16_goal_*`     "display size equal to the configured inches x 1440" (⌊·⌋ on the exact value)
 * `C16_dim_*`      "sizes taken positionally and the last value reused when the list is shorter"
 * `C16_pages`, `C16_page_count`, `C16_breaks`, `C16_one_pict_in_order`   "one per page in the given order"
@@ -198,6 +200,55 @@ theorem C16_pixels_fallback (f : Fmt) (bs : List Nat) (w h : Size) (hn : imageDi
     (encodeFigure f bs w h).picw = truncMul w 96 ∧ (encodeFigure f bs w h).pich = truncMul h 96 := by
   simp [encodeFigure, hn]
 
+/-- whatever the parser reads is written — every value of either field, `0` included: a dimension that was
+READ as zero is not "could not be read" (`imageDims` answers `some (w, 0)`, not `none`), whatever the display size -/
+theorem C16_pixels_read (f : Fmt) (bs : List Nat) (d : Nat × Nat) (w h : Size) (hd : imageDims f bs = some d) :
+    (encodeFigure f bs w h).picw = d.1 ∧ (encodeFigure f bs w h).pich = d.2 := by
+  simp [encodeFigure, hd]
+
+/-- the two cases are exhaustive and exclusive: the pair written is the pair read, or — ONLY when the parser
+returns nothing — the 96-dpi estimate -/
+theorem C16_pixels_read_or_fallback (f : Fmt) (bs : List Nat) (w h : Size) :
+    (∃ d, imageDims f bs = some d ∧ (encodeFigure f bs w h).picw = d.1 ∧ (encodeFigure f bs w h).pich = d.2) ∨
+    (imageDims f bs = none ∧ (encodeFigure f bs w h).picw = truncMul w 96 ∧
+      (encodeFigure f bs w h).pich = truncMul h 96) := by
+  cases hd : imageDims f bs with
+  | none => exact Or.inr ⟨rfl, C16_pixels_fallback f bs w h hd⟩
+  | some d => exact Or.inl ⟨d, rfl, C16_pixels_read f bs d w h hd⟩
+
+/-- **the fallback is used only when the parser returns nothing**: if either number written differs from the number
+read on that axis — each axis on its own —, nothing was read at all -/
+theorem C16_fallback_only_when_unreadable (f : Fmt) (bs : List Nat) (w h : Size)
+    (hne : ∀ d, imageDims f bs = some d → (encodeFigure f bs w h).picw ≠ d.1 ∨ (encodeFigure f bs w h).pich ≠ d.2) :
+    imageDims f bs = none := by
+  cases hd : imageDims f bs with
+  | none => rfl
+  | some d =>
+    have := C16_pixels_read f bs d w h hd
+    rcases hne d hd with h1 | h2
+    · exact absurd this.1 h1
+    · exact absurd this.2 h2
+
+/-- the written size does not depend on the display size once the header is read (so no estimate enters, on
+either axis) -/
+theorem C16_pixels_read_size_irrelevant (f : Fmt) (bs : List Nat) (d : Nat × Nat) (w h w' h' : Size)
+    (hd : imageDims f bs = some d) :
+    (encodeFigure f bs w h).picw = (encodeFigure f bs w' h').picw ∧
+    (encodeFigure f bs w h).pich = (encodeFigure f bs w' h').pich := by
+  simp [encodeFigure, hd]
+
+/-- a JPEG frame header with `Y = 0` (number of lines deferred to a DNL segment, ITU T.81 B.2.2) or `X = 0`, a PNG
+IHDR with a zero field: the zero is what is written, next to the other axis' stated value -/
+theorem C16_zero_height_stated (sfx : List Char) (f : Fmt) (bs : List Nat) (tw : Nat) (w h : Size)
+    (hf : fmtOfSuffix sfx = some f) (hs : HeaderStates sfx bs (tw, 0)) :
+    (encodeFigure f bs w h).picw = tw ∧ (encodeFigure f bs w h).pich = 0 :=
+  C16_pixels_from_header sfx f bs (tw, 0) w h hf hs
+
+theorem C16_zero_width_stated (sfx : List Char) (f : Fmt) (bs : List Nat) (th : Nat) (w h : Size)
+    (hf : fmtOfSuffix sfx = some f) (hs : HeaderStates sfx bs (0, th)) :
+    (encodeFigure f bs w h).picw = 0 ∧ (encodeFigure f bs w h).pich = th :=
+  C16_pixels_from_header sfx f bs (0, th) w h hf hs
+
 /-- `\picwgoal = ⌊w·1440⌋`, `\pichgoal = ⌊h·1440⌋` on the exact value `num/den` of the float -/
 theorem C16_goal_floor (f : Fmt) (bs : List Nat) (w h : Size) (hw : 0 < w.den) (hh : 0 < h.den) :
     let p := encodeFigure f bs w h
@@ -356,6 +407,29 @@ example : ValidJpeg exJpeg 5 4 :=
         decide,
     by decide, by decide, by decide⟩
 example : unhex (hexLines exJpeg) = some exJpeg := by decide
+
+/-- a baseline JPEG whose frame header states 1728 samples per line and `Y = 0` lines, the line count following in a
+DNL segment (`FF DC 00 04 04 4C`) after the scan -/
+def exJpegDnl : List Nat :=
+  [0xFF, 0xD8] ++ [0xFF, 0xC0, 0, 11, 8, 0, 0, 6, 192] ++ [1, 0x11, 0, 0xFF, 0xDC, 0, 4, 4, 0x4C, 0xFF, 0xD9]
+
+/-- a PNG whose IHDR states width 0 and height 2^32 - 1 -/
+def exPngEdge : List Nat :=
+  pngSig ++ [0, 0, 0, 13, 0x49, 0x48, 0x44, 0x52] ++ [0, 0, 0, 0] ++ [255, 255, 255, 255] ++ [8, 2, 0, 0, 0]
+
+example : ValidJpeg exJpegDnl 1728 0 :=
+  ⟨[], 0, 0xC0, 0, 11, 8, [1, 0x11, 0, 0xFF, 0xDC, 0, 4, 4, 0x4C, 0xFF, 0xD9], by simp, by decide, by decide,
+    by decide⟩
+example : imageDims .jpeg exJpegDnl = some (1728, 0) := by decide
+example : ValidPng exPngEdge 0 4294967295 :=
+  ⟨[0, 0, 0, 13, 0x49, 0x48, 0x44, 0x52], [8, 2, 0, 0, 0], by decide, by decide, by decide, by decide, by decide⟩
+/-- at 4.5 in × 3 in the 96-dpi estimate would be 432 × 288; the stated 1728 × 0 and 0 × (2^32-1) are written -/
+example : ((encodeFigure .jpeg exJpegDnl ⟨9, 2⟩ ⟨3, 1⟩).picw, (encodeFigure .jpeg exJpegDnl ⟨9, 2⟩ ⟨3, 1⟩).pich) =
+    (1728, 0) := by decide
+example : ((encodeFigure .png exPngEdge ⟨9, 2⟩ ⟨3, 1⟩).picw, (encodeFigure .png exPngEdge ⟨9, 2⟩ ⟨3, 1⟩).pich) =
+    (0, 4294967295) := by decide
+example : ((encodeFigure .emf exPngEdge ⟨9, 2⟩ ⟨3, 1⟩).picw, (encodeFigure .emf exPngEdge ⟨9, 2⟩ ⟨3, 1⟩).pich) =
+    (432, 288) := by decide
 
 example :
     (match encodeDoc { figs := [⟨['.', 'P', 'n', 'g'], exPng⟩, ⟨['.', 'j', 'p', 'e', 'g'], exJpeg⟩],
